@@ -22,7 +22,7 @@ from __future__ import annotations
 import numpy as np
 from hypothesis import strategies as st
 
-from vlib import dsops, env
+from vlib import dsops, env, oracles
 from vlib.core import Stage
 
 ID = "C01"
@@ -372,7 +372,13 @@ def run_case(case, ctx):
             opts = {"shuffle": 0}
             if dsops.iface_accepts(iface, "file_parallelism"):
                 opts["file_parallelism"] = case["fp"]
-            got = dsops.read_all(fresh, "train", iface, **opts)
+            ok, got = oracles.guarded(
+                ctx, "value", ("read-raised", fmt, iface),
+                f"{fmt}/{case['compression']!r} {iface} attrs "
+                f"{[(a['dtype'], a['shape']) for a in case['attrs']]}",
+                lambda: dsops.read_all(fresh, "train", iface, **opts))
+            if not ok:
+                continue
             if len(got) != n:
                 ctx.fail("count", ("example-count", fmt, iface),
                          f"{iface}: wrote {n} read {len(got)}")
